@@ -1,6 +1,8 @@
 import Mathlib.MeasureTheory.Measure.Lebesgue.Basic
 import Mathlib.Analysis.SpecialFunctions.Pow.Real
 import Mathlib.Tactic
+import HmfVerif.Gen.Guards
+import HmfVerif.Spec.Guards
 /-!
 # C20 — sampled halo masses follow the mass function
 `sample_mf` draws u ~ U[0,1), maps it through the inverse of the normalised survival function
@@ -81,5 +83,8 @@ theorem hist_normalisation_eq (count mc V dx : ℝ) (hm : mc ≠ 0) (hV : V ≠ 
     have : (0:ℝ) < Real.log 10 := Real.log_pos (by norm_num)
     exact this.ne'
   field_simp
+
+/-- the sampler's only numeric tests are the documented ones (positive n(>m), empty edge bins) -/
+theorem guards_sample : Gen.Guards.sample = Spec.Guards.sample := by decide
 
 end Hmf.C20
